@@ -200,6 +200,9 @@ func checkSyntaxInfixParts(node *InfixExpression) Object {
 
 func evalInfixExpression(operator string, left, right Object) Object {
 	switch {
+	case isComparator(operator) && (isUndefined(left) || isUndefined(right)):
+		// a missing attribute makes every comparison false (and <> true), whatever the other operand is
+		return evalNullInfixExpression(operator, left, right)
 	case isComparable(left) && isComparable(right):
 		return evalComparableInfixExpression(operator, left, right)
 	case matchTypes(ObjectTypeBoolean, left, right):
@@ -215,6 +218,15 @@ func evalInfixExpression(operator string, left, right Object) Object {
 	default:
 		return newError("unknown operator: %s %s %s", left.Type(), operator, right.Type())
 	}
+}
+
+func isComparator(operator string) bool {
+	switch operator {
+	case "=", "<>", "<", "<=", ">", ">=":
+		return true
+	}
+
+	return false
 }
 
 func evalNullInfixExpression(operator string, left, right Object) Object {
